@@ -293,3 +293,24 @@ func TestVerifWitness_C08_symbol_of_symbolless_commodity(t *testing.T) {
 	}
 	fmt.Println("WITNESS-HOLDS")
 }
+
+// C09 server.findDefinitionTarget#ensures.nothing_under_cursor_means_no_occurrence: references / rename / definition asked
+// with the cursor on a commodity in a cost or a balance assertion, or on the name in an account / commodity directive,
+// must find the symbol (they answered nothing: only posting accounts, amount commodities and payees were looked at).
+func TestVerifWitness_C09_cursor_on_cost_assertion_and_declaration(t *testing.T) {
+	content := "account assets:broker\ncommodity USD\n2024-01-01 x\n    assets:broker  10 AAPL @ 150 USD\n    assets:cash  -1500 USD = 0 USD\n"
+	s := NewServer()
+	uri := protocol.DocumentURI("file:///tmp/w-target.journal")
+	s.documents.Store(uri, content)
+	for _, c := range []struct {
+		what string
+		pos  protocol.Position
+	}{{"USD in the cost", protocol.Position{Line: 3, Character: 34}}, {"USD in the assertion", protocol.Position{Line: 4, Character: 32}}, {"declared account", protocol.Position{Line: 0, Character: 10}}, {"declared commodity", protocol.Position{Line: 1, Character: 11}}} {
+		locs, _ := s.References(context.Background(), &protocol.ReferenceParams{TextDocumentPositionParams: protocol.TextDocumentPositionParams{TextDocument: protocol.TextDocumentIdentifier{URI: uri}, Position: c.pos}, Context: protocol.ReferenceContext{IncludeDeclaration: true}})
+		if len(locs) == 0 {
+			fmt.Printf("WITNESS-FAILS references asked on the %s (%d:%d): no location\n", c.what, c.pos.Line, c.pos.Character)
+			return
+		}
+	}
+	fmt.Println("WITNESS-HOLDS")
+}
